@@ -10,7 +10,7 @@ export VERIF_ROOT="$ROOT"
 cd "$ROOT/harness" || exit 2
 mkdir -p "$ROOT/work" "$ROOT/evidence" "$ROOT/replays"
 LOG="$ROOT/work/build-$ID.log"
-if ! cargo build --offline -p vcheck -p vbuild >"$LOG" 2>&1; then
+if ! cargo build --offline -p vcheck -p vbuild -p vgen >"$LOG" 2>&1; then
   echo "INFRA: harness build failed (see $LOG)" >&2
   tail -30 "$LOG" >&2
   exit 2
